@@ -535,6 +535,7 @@ KERNELS += [
     L("LayoutEnvelope", ["C11"], "_gkdi.py", "GroupKeyEnvelope", "Gkdi.envelopeLayout"),
     L("LayoutKeyId", ["C11", "C06"], "_blob.py", "KeyIdentifier", "Gkdi.keyIdLayout"),
     L("LayoutPduHeader", ["C12", "C13"], "_rpc/_pdu.py", "PDUHeader", "Rpc.headerLayout"),
+    L("LayoutDataRep", ["C12", "C13"], "_rpc/_pdu.py", "DataRep", "Rpc.dataRepLayout"),
     L("LayoutSecTrailer", ["C12", "C13"], "_rpc/_pdu.py", "SecTrailer", "Rpc.secTrailerLayout"),
     L("LayoutRequest", ["C12", "C13"], "_rpc/_request.py", "Request", "Rpc.requestLayout"),
     L("LayoutResponse", ["C12", "C16"], "_rpc/_request.py", "Response", "Rpc.responseLayout"),
@@ -622,6 +623,7 @@ def layout_items(fn, lists=frozenset()):
     locs = {}
     lens = {}      # integer local -> the bytes reference whose length it is (`n = len(x)`)
     pads = {}      # integer local -> (k, bytes reference, m) for `p = -(k + n) % m`
+    ints = {}      # integer local -> the name of the assembled integer
     pre = list(body[:-1])
     i = 0
     merged = []
@@ -652,6 +654,12 @@ def layout_items(fn, lists=frozenset()):
                     and isinstance(v.left.operand.op, ast.Add) and isinstance(v.left.operand.left, ast.Constant) and isinstance(v.left.operand.left.value, int) \
                     and v.left.operand.left.value >= 0 and isinstance(v.left.operand.right, ast.Name) and v.left.operand.right.id in lens:
                 pads[tname] = (v.left.operand.left.value, lens[v.left.operand.right.id], v.right.value)
+                ok = True
+            # `n = self.a << k | self.b`: an integer assembled from two fields
+            if isinstance(v, ast.BinOp) and isinstance(v.op, ast.BitOr) and isinstance(v.left, ast.BinOp) and isinstance(v.left.op, ast.LShift) \
+                    and isinstance(v.left.right, ast.Constant) and isinstance(v.left.right.value, int) and 0 <= v.left.right.value < 64 \
+                    and all(ast.unparse(x).startswith("self.") and ast.unparse(x).count(".") == 1 for x in (v.left.left, v.right)):
+                ints[tname] = f"{ast.unparse(v.left.left)[5:]}<<{v.left.right.value}|{ast.unparse(v.right)[5:]}"
                 ok = True
             if isinstance(v, ast.Call) and ast.unparse(v.func) == "b''.join" and len(v.args) == 1 and isinstance(v.args[0], (ast.ListComp, ast.GeneratorExp)):
                 locs[tname] = None      # resolved by ref() below
@@ -722,6 +730,8 @@ def layout_items(fn, lists=frozenset()):
                     items.append(f'.lenOf "{ref(tgt.args[0])}" {w}')
             elif isinstance(tgt, ast.Name) and tgt.id in lens:
                 items.append(f'.lenOf "{lens[tgt.id]}" {w}')
+            elif isinstance(tgt, ast.Name) and tgt.id in ints:
+                items.append(f'.int "{ints[tgt.id]}" {w}')
             elif isinstance(tgt, ast.BinOp) and isinstance(tgt.op, ast.Add) and isinstance(tgt.right, ast.Constant) and isinstance(tgt.right.value, int) \
                     and not isinstance(tgt.right.value, bool) and tgt.right.value >= 0 and isinstance(tgt.left, ast.Call) \
                     and ast.unparse(tgt.left.func) == "len" and len(tgt.left.args) == 1 and not tgt.left.keywords:
